@@ -84,7 +84,7 @@ def evaluate(pkg, vals, edge_cls, vtypes, est, off, shape, ids):
             e_off = vals.of(off, "off") if off not in POSES else vals.pose_off[off]
             e = it.construct(edge_cls, [list(id_polys), vals.info[shape], e_est, e_off], dict(vertices=vlist))
         return it.call_method(e, "is_valid", [])
-    paths = explore(pkg, run, hook=distinct_names_hook, max_paths=8)
+    paths = explore(pkg, run, hook=distinct_names_hook, max_paths=64)
     outs = set()
     for p in paths:
         if p.raised is not None:
@@ -92,7 +92,8 @@ def evaluate(pkg, vals, edge_cls, vtypes, est, off, shape, ids):
         else:
             outs.add(bool(p.value) if isinstance(p.value, bool) else "value:%r" % (p.value,))
     if len(outs) != 1:
-        return "data-dependent:%s" % sorted(map(str, outs))
+        # the verdict depends on the *numbers* in the poses / matrices, not only on types, shapes and ids
+        return ("data-dependent", frozenset(outs))
     return outs.pop()
 
 
@@ -120,6 +121,13 @@ def chunk_task(edge_cls, nverts, shapes, ids_states, first=None):
                             n += 1
                             if exp:
                                 distinct.add((vtypes, est, off, shape, ids))
+                            if isinstance(got, tuple) and got[0] == "data-dependent":
+                                outs = got[1]
+                                if exp:
+                                    bad.append(("rejects(for some pose / matrix values: %s)" % sorted(map(str, outs - {True})), vtypes, est, off, shape, ids))
+                                elif True in outs:
+                                    bad.append(("accepts", vtypes, est, off, shape, ids))
+                                continue
                             if got is True and exp:
                                 accepted_ok += 1
                             elif got is True and not exp:
